@@ -576,11 +576,11 @@ _s("prefixes", r"""
 """)
 
 _s("pi_magnitudes", r"""
-        constexpr auto PI = Magnitude<Pi>{};
-        constexpr auto half_turns = radians * PI;
-        std::printf("pi_magnitudes %.17g %.17g %.17g [%s] [%s] %d %d\n", get_value<double>(PI), half_turns(2.0).in(radians), get_value<double>(PI * PI / mag<4>()),
-                    unit_label(half_turns), mag_label(PI / mag<2>()), int(is_rational(PI)), int(is_integer(PI)));
-        std::printf("pi_magnitudes_f %.9g %.9g\n", double(get_value<float>(PI)), double(half_turns(0.5f).in(radians)));
+        constexpr auto pi_mag = Magnitude<Pi>{};
+        constexpr auto half_turns = radians * pi_mag;
+        std::printf("pi_magnitudes %.17g %.17g %.17g [%s] [%s] %d %d\n", get_value<double>(pi_mag), half_turns(2.0).in(radians), get_value<double>(pi_mag * pi_mag / mag<4>()),
+                    unit_label(half_turns), mag_label(pi_mag / mag<2>()), int(is_rational(pi_mag)), int(is_integer(pi_mag)));
+        std::printf("pi_magnitudes_f %.9g %.9g\n", double(get_value<float>(pi_mag)), double(half_turns(0.5f).in(radians)));
 """)
 
 _s("symbols_compound", r"""
